@@ -99,6 +99,9 @@ func c12GenRate(r interface {
 	Float64() float64
 	IntN(int) int
 }, n int) (int, string) {
+	if n < 2 {
+		return []int{0, 1, 2, 10, 1 + r.IntN(5000)}[r.IntN(5)], "single-subtick"
+	}
 	switch r.IntN(8) {
 	case 0:
 		return 0, "zero"
@@ -127,7 +130,11 @@ func c12Run(c *core.Case, o *core.Outcome, dist api.DistributionType) {
 	for si := 0; si < p.Sets && o.Verdict != core.Violated && budget > 0; si++ {
 		n := c12GenN(r, p.MaxN)
 		rem := time.Duration(0)
-		if r.IntN(2) == 0 {
+		if r.IntN(12) == 0 {
+			// a single sub-tick per cycle: intervals strictly between 100 and 200 ms
+			n = 1
+			rem = time.Duration(1 + r.Int64N(int64(100*time.Millisecond)-1))
+		} else if r.IntN(2) == 0 {
 			rem = time.Duration(r.IntN(100)) * time.Millisecond
 			if r.IntN(3) == 0 {
 				rem += time.Duration(r.IntN(1000)) * time.Microsecond
